@@ -484,7 +484,7 @@ def write(repo, lean_dir):
     path = os.path.join(lean_dir, "PyomaVerif", "Generated", "Wiring.lean")
     try:
         text, summary = translate(repo)
-    except (SyntaxError, OSError, IndexError, KeyError) as e:
+    except (SyntaxError, OSError, IndexError, KeyError, AttributeError, TypeError, ValueError) as e:
         return False, f"wiring translator failed closed: {e}", {}
     old = open(path).read() if os.path.exists(path) else None
     if old != text:
